@@ -302,6 +302,12 @@ class ResourceScenario(ScenarioData):
             # Nothing left, or only float dust from releasing a fraction of the slot
             return False
 
+        # A leave or off-shift marker (an integer) is never bookable - also not when part of
+        # the slot is accounted as used already (a dependency bound inside the slot reserves
+        # its head, which must not turn a holiday into a "partly released" slot).
+        if isinstance(self.scoreboard[sb_idx], int):
+            return False
+
         # If scoreboard shows a booking but there's available time, it's a partial slot
         # that was released - allow booking
         if self.scoreboard[sb_idx] is not None and available_seconds < self.project.attributes.get(
